@@ -5,4 +5,84 @@ import DnsVerif.Model.Life
 
 namespace DnsVerif.Life
 
+/-! ### list helpers -/
+
+theorem getElem?_modifyAt {α} (l : List α) (i j : Nat) (f : α → α) :
+    (modifyAt l i f)[j]? = if i = j then l[j]?.map f else l[j]? := by
+  unfold modifyAt
+  cases h : l[i]? with
+  | none =>
+    by_cases hij : i = j
+    · subst hij; simp [h]
+    · simp [hij]
+  | some a =>
+    obtain ⟨hi, hia⟩ := List.getElem?_eq_some_iff.1 h
+    by_cases hij : i = j
+    · subst hij; simp [hi, hia]
+    · simp [hij]
+
+theorem length_modifyAt {α} (l : List α) (i : Nat) (f : α → α) :
+    (modifyAt l i f).length = l.length := by
+  unfold modifyAt
+  cases l[i]? <;> simp
+
+theorem modifyAt_id {α} (l : List α) (i : Nat) (f : α → α)
+    (h : ∀ a, l[i]? = some a → f a = a) : modifyAt l i f = l := by
+  apply List.ext_getElem?
+  intro j
+  rw [getElem?_modifyAt]
+  by_cases hij : i = j
+  · subst hij
+    rw [if_pos rfl]
+    cases h' : l[i]? with
+    | none => rfl
+    | some a => simp [h a h']
+  · rw [if_neg hij]
+
+theorem count_eraseIdx_add {l : List Nat} {i a : Nat} (h : l[i]? = some a) (b : Nat) :
+    (l.eraseIdx i).count b + (if b = a then 1 else 0) = l.count b := by
+  induction l generalizing i with
+  | nil => simp at h
+  | cons c l ih =>
+    cases i with
+    | zero =>
+      simp at h
+      subst h
+      simp [List.count_cons]
+      by_cases hb : b = c
+      · subst hb; simp
+      · have : ¬ c = b := fun e => hb e.symm
+        simp [hb, this]
+    | succ i =>
+      simp at h
+      have := ih h
+      simp [List.count_cons]
+      omega
+
+/-! ### the invariant -/
+
+/-- number of references held on wrapper `w`: readers plus still-running reload goroutines -/
+def cnt (s : St) (w : Nat) : Nat := s.readers.count w + (s.pending.map (·.w)).count w
+
+/-- wrapper `w` keeps its backend open: it is referenced, or it is the served one -/
+def Holder (s : St) (w : Nat) (wr : Wrapper) : Prop :=
+  0 < wr.refCount ∨ (s.down = false ∧ w = s.served)
+
+structure Inv (s : St) : Prop where
+  served_lt : s.served < s.wrappers.length
+  readers_lt : ∀ r ∈ s.readers, r < s.wrappers.length
+  pending_ok : ∀ p ∈ s.pending, ∃ wr : Wrapper, s.wrappers[p.w]? = some wr ∧ p.on = wr.dbi
+  dbi_lt : ∀ w wr, s.wrappers[w]? = some wr → wr.dbi < s.backends.length
+  rc : ∀ w wr, s.wrappers[w]? = some wr → wr.refCount = cnt s w
+  d1 : ∀ wr, s.wrappers[s.served]? = some wr → s.down = false → wr.destroyable = false
+  d2 : ∀ w wr, s.wrappers[w]? = some wr → 0 < wr.refCount → (s.down = true ∨ w ≠ s.served) →
+    wr.destroyable = true
+  h1 : ∀ w wr x, s.wrappers[w]? = some wr → s.backends[wr.dbi]? = some x → Holder s w wr →
+    x.closes = 0
+  uniq : ∀ w w' wr wr', s.wrappers[w]? = some wr → s.wrappers[w']? = some wr' → wr.dbi = wr'.dbi →
+    Holder s w wr → Holder s w' wr' → w = w'
+  safe : ∀ b (x : Backend), s.backends[b]? = some x → x.closes ≤ 1 ∧ x.badUses = 0
+  owned : ∀ b x, s.backends[b]? = some x → x.closes = 0 →
+    ∃ w wr, s.wrappers[w]? = some wr ∧ wr.dbi = b ∧ Holder s w wr
+
 end DnsVerif.Life
